@@ -270,21 +270,36 @@ def install_pool():
         if serial is None:
             serial = self._sim_serial = k.cfg['_rs_serial'] = k.cfg.get('_rs_serial', 0) + 1
         before = (self.R, self.T)
+        self.__dict__['_in_step'] = True
         try:
             r = orig_step(self, now)
         except BC.RestartFreqExceeded:
+            self.__dict__['_in_step'] = False
             k.record('rs-step', serial, self.maxR, self.maxT, before[0], before[1], k.now, 'refused')
             k.probe('restart_limit_hit')
             raise
+        self.__dict__['_in_step'] = False
         k.record('rs-step', serial, self.maxR, self.maxT, before[0], before[1], k.now, 'admitted')
         return r
     _set(BC.restart_state, 'step', _step)
+
+    def _rs_setattr(self, name, value):
+        # record-only: the instant somebody else (the result handler, on an accept message) zeroes the count
+        self.__dict__[name] = value
+        if name == 'R' and value == 0 and not self.__dict__.get('_in_step'):
+            k = state.K
+            if k is not None and not k.aborting:
+                k.record('rs-reset', self.__dict__.get('_sim_serial'))
+    _set(BC.restart_state, '__setattr__', _rs_setattr)
     orig_maintain = P.Pool._maintain_pool
 
     def _maintain(self):
         k = state.K
         k.record('pass-begin')
         begin = k.steps
+        hook = k.cfg.get('_on_pass_begin')
+        if hook is not None:
+            hook(self)
         orig_maintain(self)
         k.record('pass-end')
         hook = k.cfg.get('_on_pass_end')
@@ -302,6 +317,9 @@ def install_pool():
     def _create(self, i):
         w = orig_create(self, i)
         state.K.record('worker-registered', w.pid)
+        hook = state.K.cfg.get('_on_worker_created')
+        if hook is not None:
+            hook(self, w)
         return w
     _set(P.Pool, '_create_worker_process', _create)
 
